@@ -281,7 +281,7 @@ func dedupSchema(d *xDoc) (removed []string) {
 
 func main() {
 	c := vk.Init("C12")
-	c.Rule("programs = schemas run through cmd/fixgen built from the working tree: the two shipped schemas (source/fix44.xml; generator/testdata/fix.4.4.xml with its deliberate duplicate removed) and schemas derived by a seeded mutator (remove/reorder/add/rename/renumber members and fields, remove messages, toggle required, change a type's cast, introduce duplicate field numbers or message types, add a repeating group at nesting depth 3), each with a relative, nested or absolute output directory. Per accepted schema three stages: (1) go build of the emitted package; (2) every constant, constructor signature, accessor signature, accessor item index and member list read back with go/parser and compared with the harness's own XML reader; (3) a behavioural driver derived from the XML (not from the emitted code) executed against the compiled package: each setter puts exactly its own tag=value on the wire, getters return it, all-populated wire order = schema order, populating constructors carry exactly the required members, group AddEntry/Entries round-trip, BeginString/MsgType. Plus byte-identical regeneration, identical output across output directories, rejection of duplicate numbers/msgtypes, and tests/fix44 vs fresh generation as declaration multisets. distinct = distinct schema texts; non-trivial = differs from a shipped schema by at least one mutation")
+	c.Rule("programs = schemas run through cmd/fixgen built from the working tree: the two shipped schemas (source/fix44.xml; generator/testdata/fix.4.4.xml with its deliberate duplicate removed) and schemas derived by a seeded mutator (remove/reorder/add/rename/renumber members and fields, remove messages, toggle required, change a type's cast, introduce duplicate field numbers or message types, add a repeating group at nesting depth 3; six fixed cast changes that cover Raw and Time), each with a relative, nested or absolute output directory. Per accepted schema three stages: (1) go build of the emitted package; (2) every constant, constructor signature, accessor signature, accessor item index and member list read back with go/parser and compared with the harness's own XML reader; (3) a behavioural driver derived from the XML (not from the emitted code) executed against the compiled package: each setter puts exactly its own tag=value on the wire, getters return it, all-populated wire order = schema order, populating constructors carry exactly the required members, group AddEntry/Entries round-trip, BeginString/MsgType. Plus byte-identical regeneration, identical output across output directories, rejection of duplicate numbers/msgtypes, and tests/fix44 vs fresh generation as declaration multisets. distinct = distinct schema texts; non-trivial = differs from a shipped schema by at least one mutation")
 	c.Assume("translation validation by execution on sampled schemas; the harness's XML reader and type-mapping reader are the trusted base; mutations never touch the fields the session pipelines' typed interfaces depend on")
 	work := c.WorkDir
 	if work == "" {
@@ -417,6 +417,18 @@ func main() {
 		}})
 		cases = append(cases, &caseT{id: fmt.Sprintf("depth3-group-%d", bi), doc: d, types: tm, typeOrder: to, outDir: "./deep" + strconv.Itoa(bi),
 			muts: []mutation{{"add-group-at-depth-3", "added group NoDeepNotes inside " + hostPath}}})
+	}
+	// every cast the generator knows, applied to a type no session pipeline depends on (the shipped mappings use
+	// String, Bool, Int and Float only)
+	for _, tc := range [][2]string{{"DATA", "Raw"}, {"UTCTIMEONLY", "Time"}, {"LOCALMKTDATE", "Time"}, {"CURRENCY", "Raw"}, {"DATA", "Int"}, {"PRICEOFFSET", "String"}} {
+		d, tm, to := clone(bases[0])
+		old, ok := tm[tc[0]]
+		if !ok || old == tc[1] {
+			continue
+		}
+		tm[tc[0]] = tc[1]
+		cases = append(cases, &caseT{id: "cast-" + tc[0] + "-" + tc[1], doc: d, types: tm, typeOrder: to, outDir: "./cast" + strings.ToLower(tc[0]+tc[1]),
+			muts: []mutation{{"change-type-cast", "type " + tc[0] + " cast " + old + " -> " + tc[1]}}})
 	}
 	nDerived := c.Pick(10, 150)
 	for i := 0; i < nDerived; i++ {
